@@ -2,9 +2,9 @@
 # executor, the history-acceptance comparison against the explored model, the oracles.
 import re
 
-EXEC = "mq"
+EXEC = ("mq", "mqs")
 MODEL_AFTER_IMPL = True
-PER_SHARD = 4
+PER_SHARD = 40
 IMPL_SHARDS = 8           # timing windows: do not oversubscribe the machine
 
 
@@ -31,7 +31,40 @@ def outcome_str(o):
         ",".join(o["q"]) if o["q"] else "-")
 
 
+def parse_mqs(obs):
+    m = re.match(r"labels=(\S+) res=(\S+) q=(\S+) blocked=(\S+) dead=(\d) clock=(\d+) durs=(\S+)", obs)
+    if not m:
+        return None
+    res = []
+    if m.group(2) != "-":
+        for x in m.group(2).split(","):
+            k, oi, r = x.split(":")
+            res.append((k, int(oi), r))
+    durs = []
+    if m.group(7) != "-":
+        durs = [tuple(int(y) for y in x.split(":")) for x in m.group(7).split(",")]
+    return {"labels": m.group(1), "res": res, "q": [] if m.group(3) == "-" else m.group(3).split(","),
+            "blocked": [] if m.group(4) == "-" else [int(x) for x in m.group(4).split(",")], "dead": m.group(5) == "1",
+            "durs": durs, "raw": m}
+
+
+def mqs_threads(case):
+    out = []
+    for th in case.split(" ")[2].split("|"):
+        name, ops = th.split(":", 1)
+        out.append((name, [o for o in ops.split(",") if o]))
+    return out
+
+
 def model_line(case, obs):
+    if case.startswith("mqs "):
+        o = parse_mqs(obs)
+        if o is None:
+            return "#"
+        nrecv = 1 + max([int(n[1:]) for n, _ in mqs_threads(case) if n.startswith("r")] + [0])
+        cfg = "a" if " cfg=a" in case else "f"
+        m = o["raw"]
+        return "mqr %s %d %s %s %s %s" % (cfg, nrecv, m.group(1), m.group(2), m.group(3), m.group(4))
     f = case.split(" ")
     o = parse_impl(obs)
     cfg = "f"
@@ -44,6 +77,8 @@ def model_line(case, obs):
 
 
 def agree(im, mo):
+    if im.startswith("labels="):
+        return mo.startswith("LOCKSTEP-OK")
     o = parse_impl(im)
     if o is None or not mo.startswith("n="):
         return False
@@ -57,9 +92,57 @@ def ops_of(case):
     return case.split(" ")[3].split(",")
 
 
+def oracle_mqs(case, obs, c17=False):
+    """Scheduled runs: the same demands, judged on the exact final state the runtime reports."""
+    o = parse_mqs(obs)
+    if o is None:
+        return "FAIL implementation: " + obs[:200]
+    ths = mqs_threads(case)
+    pushed = [op[4:] for _, ops in ths for op in ops if op.startswith("push")]
+    got = [r[1:] for _, _, r in o["res"] if r.startswith("v")]
+    left = [x for x in o["q"] if x != "T"]
+    if sorted(got + left) != sorted(pushed):
+        return "FAIL requests pushed %r, handed out %r, still queued %r: lost or duplicated" % (pushed, got, left)
+    # one producer's values reach one receiver in push order
+    for name, ops in ths:
+        if not name.startswith("p"):
+            continue
+        mine = [op[4:] for op in ops if op.startswith("push")]
+        for k in set(r[0] for r in o["res"]):
+            seen = [r[2][1:] for r in o["res"] if r[0] == k and r[2].startswith("v") and r[2][1:] in mine]
+            idx = [mine.index(v) for v in seen]
+            if idx != sorted(idx):
+                return "FAIL receiver %s saw the requests of one producer out of order: %r" % (k, seen)
+    if o["q"] and o["blocked"]:
+        return "FAIL lost wake-up: the queue holds %r while receiver(s) %r are blocked for ever" % (o["q"], o["blocked"])
+    if c17:
+        nun = sum(1 for _, ops in ths for op in ops if op == "unblock")
+        tokens_left = sum(1 for x in o["q"] if x == "T")
+        # blocking receives that came back empty-handed can only have been released by a token
+        ops_of = {n[1:]: ops for n, ops in ths if n.startswith("r")}
+        pops_none = sum(1 for k, oi, r in o["res"] if r == "N" and ops_of[k][oi] == "pop")
+        if pops_none > nun - tokens_left:
+            return "FAIL %d blocking receive(s) returned without a request, only %d token(s) were consumed" % (pops_none, nun - tokens_left)
+        # a timed receive that came back empty-handed with no unblock in the script did so by time: not before T - 1 ms
+        if nun == 0:
+            per = {}
+            for k, d in o["durs"]:
+                per.setdefault(str(k), []).append(d)
+            for k, ops in ops_of.items():
+                rs = [r for kk, oi, r in sorted(x for x in o["res"] if x[0] == k)]
+                for j, (op, r) in enumerate(zip(ops, rs)):
+                    if op.startswith("timed") and r == "N" and j < len(per.get(k, [])):
+                        T = 10 * int(op[5:])
+                        if per[k][j] < T - 10:
+                            return "FAIL recv_timeout(%d ms) returned empty-handed after %.1f ms of virtual time" % (T // 10, per[k][j] / 10.0)
+    return "OK"
+
+
 def oracle_c07(case, obs):
     """From the property text: every pushed request is handed out exactly once (or is still queued), a
     single receiver sees them in push order, and no request stays queued while a receiver stays blocked."""
+    if case.startswith("mqs "):
+        return oracle_mqs(case, obs)
     o = parse_impl(obs)
     if o is None:
         return "FAIL implementation: " + obs[:200]
@@ -85,6 +168,8 @@ def oracle_c07(case, obs):
 def oracle_c17(case, obs):
     """Each unblock releases exactly one receive call (or its token is still queued); try_recv never
     blocks; a timed receive that returns empty-handed by time does so within [T - 1 ms, 2T + slack]."""
+    if case.startswith("mqs "):
+        return oracle_mqs(case, obs, c17=True)
     o = parse_impl(obs)
     if o is None:
         return "FAIL implementation: " + obs[:200]
@@ -115,3 +200,25 @@ def oracle_c17(case, obs):
     if tokens_left and o["blocked"]:
         return "FAIL an unblock token stays queued while receiver(s) %r stay blocked" % (o["blocked"],)
     return "OK"
+
+
+def rand_mqs(rng, allow_unblock):
+    nrecv = 1 + rng.below(3)
+    ths = []
+    v = 1
+    for k in range(nrecv):
+        ops = [rng.choice(["pop", "pop", "try", "timed30", "timed5"]) for _ in range(1 + rng.below(3))]
+        ths.append("r%d:%s" % (k, ",".join(ops)))
+    for p in range(1 + rng.below(2)):
+        ops = []
+        for _ in range(1 + rng.below(4)):
+            c = rng.below(10)
+            if c < 5:
+                ops.append("push%d" % (100 * (p + 1) + v))
+                v += 1
+            elif c < 7 and allow_unblock:
+                ops.append("unblock")
+            else:
+                ops.append("sleep%d" % rng.choice([1, 44, 294, 296, 300, 310]))
+        ths.append("p%d:%s" % (p, ",".join(ops)))
+    return "|".join(ths)
